@@ -1,5 +1,5 @@
 reg("C20", "point-in-polygon decisions and polygon selections vs exact geometry",
-    parts=[dict(harness="c20_polygon", cases=dict(quick=6000, thorough=100000), timeout_case=30)],
+    parts=[dict(harness="c20_polygon", cases=dict(quick=6000, thorough=80000), timeout_case=30)],
     rule="case = polygon(s) + queries from the case PRNG. Polygon vertices on an even integer lattice, query points on the "
          "integer lattice (half-lattice); integer k is given to the library as h*(k+offset), h = 2^-4..2^2, offsets up to "
          "2^20, so both the exact integer oracle (harness/common/ref_poly.hpp: winding number + on-segment test in int64) "
@@ -19,7 +19,7 @@ reg("C20", "point-in-polygon decisions and polygon selections vs exact geometry"
          "(lattice boxes, discs, crosses, triangles, bands, duplicates), contains all its samples; "
          "Db::addSelectionFromDbByConvexHull on a grid, dilation checked by a two-sided bound. Small-scale strata (6% of "
          "single and hull cases): half-unit 2^-20..2^-12, i.e. polygons / data sets of extent 1e-5..1e-2 (the hull "
-         "construction is first tried in a forked child with a 10 s limit there). distinct = distinct "
+         "construction is first tried in a forked child with a 5 s limit there). distinct = distinct "
          "(kind, generator, transform, closed/open, orientation, size class, h, offset, options) signatures",
     require=dict(distinct=1200,
                  oracles=dict(quick={"polygons-inside": 400000, "polyelem-inside": 200000, "set-union": 100000,
